@@ -30,9 +30,9 @@ DenFuel == 160
 
 NoCase == [id |-> 0, g |-> 0, w |-> <<>>, A |-> 1, M |-> 1, af |-> 0, cf |-> 1, trk |-> 0, eol |-> 3,
            ib |-> 0, il |-> 1, ic |-> 1, cls |-> 0, xt |-> 0]
-NoLast == [r |-> 0, v |-> -1, o |-> 0, mx |-> 0, lvl |-> 0, x |-> 0, eo |-> 0]
+NoLast == [r |-> 0, v |-> -1, o |-> 0, mx |-> 0, lvl |-> 0, x |-> 0, eo |-> 0, tr |-> <<>>, endv |-> -1, endx |-> 0]
 Cnt0   == [ev |-> 0, cases |-> 0, den |-> 0, opq |-> 0, req |-> 0, look |-> 0, pos |-> 0, hook |-> 0, act |-> 0,
-           xcs |-> 0, ends |-> 0, raise |-> 0, fuel |-> 0, state |-> 0, sw |-> 0]
+           xcs |-> 0, ends |-> 0, raise |-> 0, fuel |-> 0, state |-> 0, sw |-> 0, tree |-> 0]
 
 CInit == /\ stk = <<>>
          /\ cs = NoCase
@@ -64,10 +64,27 @@ Min2(a, b) == IF a <= b THEN a ELSE b
 FrameLim(f) == IF Known(f.r) /\ f.af = 4 THEN Nodes[f.r].lim \div 1000 ELSE 0
 FrameLimN(f) == Nodes[f.r].lim % 1000
 
+\* parse tree (C12): the surviving derivation of the selected rules, built from the validated invocations.
+\* A (sub)tree is a pre-order list of <<rule, begin, end or -1, has content, depth>>.
+TreeMode == cs.xt \in {1, 2}
+SelKind(f) == IF ~Known(f.r) \/ Nodes[f.r].en = 0 \/ f.dlg = 1 THEN 0 ELSE IF cs.xt = 2 THEN 1 ELSE Nodes[f.r].sel
+Deeper(t) == [i \in 1..Len(t) |-> <<t[i][1], t[i][2], t[i][3], t[i][4], t[i][5] + 1>>]
+NDirect(t) == Cardinality({i \in 1..Len(t) : t[i][5] = 0})
+\* node of a successful match [b, e] of an invocation with children t, after the selector's transformer
+OwnTree(f, e, t) ==
+   LET k == SelKind(f) IN
+   CASE k = 0 -> t
+     [] k = 1 -> <<<<f.r, f.o, e, 1, 0>>>> \o Deeper(t)
+     [] k = 2 -> <<<<f.r, f.o, -1, 0, 0>>>> \o Deeper(t)
+     [] k = 3 -> IF NDirect(t) = 1 THEN t ELSE <<<<f.r, f.o, -1, 0, 0>>>> \o Deeper(t)                \* fold_one
+     [] k = 4 -> IF NDirect(t) = 0 THEN <<>> ELSE <<<<f.r, f.o, -1, 0, 0>>>> \o Deeper(t)              \* discard_empty
+
 \* switches (C13): what an invocation prescribes for its sub-rules
 FrameSw(f) == IF Known(f.r) /\ f.af = 5 THEN Nodes[f.r].sw ELSE 0
+\* (iop: the operator of the implementation, e.g. rep_min_max< 0, 0, R > is implemented by, and behaves as, not_at< R >)
+IOpOf(r) == IF Known(r) THEN Nodes[r].iop ELSE "opaque"
 ExpA(f) == LET op == OpOf(f.r) sw == FrameSw(f) IN
-           IF op \in {"at", "not_at", "disable"} \/ sw = 8 THEN 0 ELSE IF op = "enable" \/ sw = 7 THEN 1 ELSE f.A
+           IF op \in {"at", "not_at", "disable"} \/ IOpOf(f.r) \in {"at", "not_at"} \/ sw = 8 THEN 0 ELSE IF op = "enable" \/ sw = 7 THEN 1 ELSE f.A
 ExpAf(f) == IF OpOf(f.r) = "action" THEN Nodes[f.r].p[1] ELSE IF FrameSw(f) \in {3, 4, 5} THEN 1 ELSE f.af
 ExpCf(f) == IF OpOf(f.r) = "control" THEN Nodes[f.r].p[1] ELSE IF FrameSw(f) = 6 THEN 2 ELSE f.cf
 ExpS(f) == IF f.sid > 0 THEN f.sid ELSE f.s
@@ -116,7 +133,7 @@ OnEnter(ev, idx) ==
    /\ stk' = Append(IF stk = <<>> THEN stk
                     ELSE [stk EXCEPT ![Len(stk)] = [Top EXCEPT !.kids = Top.kids + 1,
                                                                !.dlg = IF Top.r = ev.r /\ Top.ph = 0 /\ Top.kids = 0 THEN 1 ELSE Top.dlg]], [r |-> ev.r, A |-> ev.A, M |-> ev.M, b |-> ev.b, l |-> ev.l, c |-> ev.c, o |-> ev.o,
-                          e |-> ev.e, mx |-> ev.o, ph |-> 0, na |-> 0, ni |-> 0, iv |-> -1, av |-> -1, sid |-> 0, sst |-> 0, sss |-> 0, kids |-> 0, dlg |-> 0, af |-> ev.af, cf |-> ev.cf,
+                          e |-> ev.e, mx |-> ev.o, ph |-> 0, na |-> 0, ni |-> 0, iv |-> -1, av |-> -1, sid |-> 0, sst |-> 0, sss |-> 0, kids |-> 0, dlg |-> 0, tr |-> <<>>, af |-> ev.af, cf |-> ev.cf,
                           d |-> ev.d, s |-> ev.s])
    /\ verd' = VCap(verd \o PosV(ev, idx, ev.r) \o BoundV(ev, idx, ev.r)
         \* C13: apply mode, action family, control and innermost state of a sub-rule are what the enclosing rule prescribes
@@ -284,9 +301,11 @@ OnExit(ev, idx) ==
             scope == ScopeKind(f)
             mx == Max2(f.mx, ev.o)
             rest == Pop
+            mytree == IF TreeMode /\ ev.v = 1 THEN OwnTree(f, ev.o, f.tr) ELSE <<>>
         IN /\ stk' = IF rest = <<>> THEN rest
-                     ELSE LET par == rest[Len(rest)] IN [rest EXCEPT ![Len(rest)] = [par EXCEPT !.mx = Max2(par.mx, mx)]]
-           /\ lastx' = [r |-> f.r, v |-> ev.v, o |-> f.o, mx |-> mx, lvl |-> Len(stk), x |-> 0, eo |-> ev.o]
+                     ELSE LET par == rest[Len(rest)] IN [rest EXCEPT ![Len(rest)] = [par EXCEPT !.mx = Max2(par.mx, mx), !.tr = par.tr \o mytree]]
+           /\ lastx' = [r |-> f.r, v |-> ev.v, o |-> f.o, mx |-> mx, lvl |-> Len(stk), x |-> 0, eo |-> ev.o,
+                        tr |-> IF rest = <<>> THEN mytree ELSE <<>>, endv |-> -1, endx |-> 0]
            /\ verd' = VCap(verd
                 \* C02
                 \o If(ev.v = 0 /\ f.M = 1 /\ moved,
@@ -338,7 +357,7 @@ OnExc(ev, idx) ==
             fuel == ev.x = 4
         IN /\ stk' = IF rest = <<>> THEN rest
                      ELSE LET par == rest[Len(rest)] IN [rest EXCEPT ![Len(rest)] = [par EXCEPT !.mx = Max2(par.mx, mx)]]
-           /\ lastx' = [r |-> f.r, v |-> 2, o |-> f.o, mx |-> mx, lvl |-> Len(stk), x |-> ev.x, eo |-> ev.o]
+           /\ lastx' = [r |-> f.r, v |-> 2, o |-> f.o, mx |-> mx, lvl |-> Len(stk), x |-> ev.x, eo |-> ev.o, tr |-> <<>>, endv |-> -1, endx |-> 0]
            /\ verd' = VCap(verd
                 \* (a limit action -- limit_depth, limit_bytes, check_bytes -- raises outside the rule's own attempt: before
                 \* start, or after success; then the protocol is already balanced and no unwind is due)
@@ -396,9 +415,24 @@ OnEnd(ev, idx) ==
            \o If(ev.d >= 0 /\ ev.d # 0, V("C18", idx, 0, "depth counter not back to its initial value", ev.d, 0))
            \o If(ev.e >= 0 /\ ev.e # Len(cs.w), V("C18", idx, 0, "end of the input not restored", ev.e, Len(cs.w))))
       /\ stk' = <<>>
-      /\ lastx' = NoLast
+      /\ lastx' = [NoLast EXCEPT !.tr = IF ev.v = 1 THEN lastx.tr ELSE <<>>, !.endv = ev.v, !.endx = ev.x]
       /\ cnt' = [cnt EXCEPT !.ev = @ + 1, !.ends = @ + 1, !.fuel = @ + (IF fuel THEN 1 ELSE 0)]
       /\ UNCHANGED cs
+
+(* tree: what parse_tree::parse built for the case that just ended (C12) *)
+\* (Containment of children in their parent and ordering of siblings are consequences of the equality with the
+\* derivation wherever they hold at all: nodes created inside a succeeding and-predicate legitimately extend beyond
+\* the span of the enclosing nodes, so no separate containment guard is evaluated.)
+OnTree(ev, idx) ==
+   LET fuel == lastx.endx = 4 IN
+   /\ verd' = VCap(verd
+        \o If(~fuel /\ (ev.null = 0) # (lastx.endv = 1), V("C12", idx, cs.g, "parse_tree::parse returns a tree exactly when the plain parse succeeds", <<ev.null, ev.x>>, lastx.endv))
+        \o If(~fuel /\ (ev.x # 0) # (lastx.endv = 2), V("C12", idx, cs.g, "parse_tree::parse throws exactly when the plain parse throws", ev.x, <<lastx.endv, lastx.endx>>))
+        \o If(~fuel /\ ev.null = 0 /\ lastx.endv = 1 /\ ev.nodes # lastx.tr,
+              V("C12", idx, cs.g, "tree is not the surviving derivation of the selected rules (order, nesting, spans, transformers)", ev.nodes, lastx.tr))
+        )
+   /\ cnt' = Bump(Bump(cnt, "tree"), "ev")
+   /\ UNCHANGED <<stk, cs, lastx>>
 
 OnOther(ev, idx) ==
    /\ verd' = VCap(IF ev.k = "crash" THEN Append(verd, V("C03", idx, 0, "harness process crashed (signal or terminate)", ev.why, 0)) ELSE verd)
@@ -416,6 +450,7 @@ Step(ev, idx) ==
      [] ev.k = "ra"   -> OnRaise(ev, idx)
      [] ev.k = "case" -> OnCase(ev, idx)
      [] ev.k = "end"  -> OnEnd(ev, idx)
+     [] ev.k = "tree" -> OnTree(ev, idx)
      [] OTHER         -> OnOther(ev, idx)
 
 =============================================================================
